@@ -277,6 +277,7 @@ fn sequence_case(rep: &mut Report) {
 }
 
 pub fn run(cfg: &Cfg) -> Report {
+    crate::tls::prewarm(false);
     let seed = cfg.seed;
     let mut total = Report::new();
     if cfg.wants(9) {
